@@ -39,8 +39,35 @@ STRENGTHENED = {
     "C17-w2m1": "constructors that raise (argument tuple 9; model op `constructFail`, theorem `C17_failed_construction_registers_nothing`)",
     "C18-w2m1": "the harness no longer keeps the true singletons alive (instances are named by a number given in `__init__`)",
     "C18-w2m2": "a constructor that issues a global clear (argument tuple 10; model op `constructClearing`, theorem `C18_reentrant_clear_keeps_new_instance`)",
+    # wave 3 (written against "a strong differential harness already exists")
+    "C01-w3m1": "the same list object passed as `vertices=` to several n-ary link constructors",
+    "C02-w3m2": "universes with 50-75 members; members leave and come back from either side",
+    "C05-w3m2": "fresh interpreter: the un-pickled graph is MUTATED before its first query (every other run)",
+    "C06-w3m2": "large worlds: a path deeper than 200 levels with branching and an out-of-universe vertex below that depth",
+    "C07-w3m1": "large worlds (as C06-w3m2)",
+    "C07-w3m2": "large worlds: a dense graph whose pending DFS stack passes several thousand entries (the driver re-tabulates the world: 60x faster)",
+    "C08-w3m1": "sought values whose `__eq__` accepts everything (value class 6; model `hasAttrVal`, theorem `C08_any_value_needs_attribute`)",
+    "C10-w3m1": "cons lists nested far deeper than the recursion limit as attribute values",
+    "C10-w3m2": "ONE bound-method object stored on several vertices through the constructor; single vertices / links pickled as the root",
+    "C11-w3m2": "ragged matrices whose row lengths add up to n*n",
+    "C12-w3m1": "caching switched on for ONE vertex class only (`cflag`); the caller edits the answer it has just been given",
+    "C13-w3m1": "title-by-attribute renders among the read-only operations; the snapshot compares the set of attribute names",
+    "C15-w3m1": "`network_kwargs` with `directed=True`, and `pyvis_render_customizable`",
+    "C16-w3m1": "pool classes whose `str()` / `format()` differ from `repr()`",
+    "C16-w3m2": "a sort key with ties (stable sort = universe order)",
+    "C17-w3m1": "keyword values that are dicts filled in different orders",
+    "C17-w3m2": "`get_all…` consumed incrementally around a construction (`ssalli`)",
+    "C19-w3m2": "whitelist tables handed in as read-only views (`MappingProxyType`) of dicts the caller goes on to edit",
+    "C20-w3m1": "a two-ended link class whose constructor names its ends differently",
 }
+_EQ = ("needs graph objects (vertices / law sets) that override `__eq__`/`__hash__` so that distinct objects compare equal; the unchanged "
+       "code itself uses == membership throughout, so the identity reading of the properties presupposes default equality (§6, §11.1)")
+_FX = ("needs a filter callback that MUTATES the graph while it is being consulted; the model and the statement read filters as pure "
+       "predicates of their arguments (stated assumption of C04 / C09)")
 OUT_OF_SCOPE = {
+    "C01-w3m2": _EQ, "C03-w3m1": _EQ, "C08-w3m2": _EQ, "C14-w3m1": _EQ, "C15-w3m2": _EQ, "C19-w3m1": _EQ,
+    "C04-w3m2": _FX, "C09-w3m1": _FX,
+    "C20-w3m2": "needs a process that has created a million vertices (a bound on a class-level table): out of reach of a check that runs in minutes",
     "C03-w2m1": "needs vertices that override `__eq__`/`__hash__`; the unchanged code itself uses `in` / `remove` (==) on its vertex lists throughout, "
                 "so the statement's identity reading only makes sense for default equality — a stated assumption of the model (DESIGN §6)",
 }
